@@ -105,8 +105,12 @@ _CLASS = {}
 
 def classify_chars(chars):
     """ask the real formatter (h_ssr c12, op 0) how Debug writes each character"""
-    todo = sorted(set(chars) - set(_CLASS))
+    todo = sorted(c for c in set(chars) if c not in _CLASS)
     if todo:
+        # classify the whole 4096-code-point block of every unknown character in one call
+        blocks = sorted({c >> 12 for c in todo})
+        todo = [c for blk in blocks for c in range(blk << 12, (blk + 1) << 12)
+                if not 0xD800 <= c <= 0xDFFF and c not in _CLASS]
         exe = harness_exe()
         if not os.path.exists(exe):
             raise RuntimeError("h_ssr is not built; cannot classify characters")
